@@ -253,6 +253,15 @@ def cases(tier, shard, nshards):
                                dict(base, op="slice", a=a, b=b), opts=opts)
             for x in L[:3]:
                 yield Case(pre + "%s in s" % render_lit(x), dict(base, op="in", x=x), opts=opts)
+                if x[0] in ("i", "I"):
+                    # the same element at another numeric level / representation, and near misses
+                    v = int(x[1])
+                    if abs(v) < 2 ** 53:      # beyond that the float is a different number
+                        yield Case(pre + "float(%s) in s" % lit_int(v), dict(base, op="in", x=x), opts=opts)
+                    yield Case(pre + "((2^70+%s)-2^70) in s" % lit_int(v), dict(base, op="in", x=x), opts=opts)
+                    yield Case(pre + "(%s + 1/2) in s" % lit_int(v), dict(base, op="notin", x=x), opts=opts)
+            for probe_ in ('"a"', "null", "[1]", "(1/3)", "1.5"):
+                yield Case(pre + "%s in s" % probe_, dict(base, op="notin_other", probe=probe_), opts=opts)
             for k in {max(n - 1, 2), n + 1}:
                 if k != n and k >= 2:
                     names = ", ".join("u%d" % i for i in range(k))
@@ -375,6 +384,13 @@ def expect(m):
         return ("elems", L[m["a"]:m["b"]])
     if op == "in":
         return ("exact", cI(1))
+    if op == "notin":
+        return ("exact", cI(0))
+    if op == "notin_other":
+        # none of the instances contains a string, null, a list of one int, 1/3 or 1.5 ... except streams of such values
+        pr = m["probe"]
+        present = {"[1]": any(e == ["l", [cI(1)]] for e in L), '"a"': any(e == ["s", "a"] for e in L)}.get(pr, False)
+        return ("exact", cI(int(present)))
     if op == "unpack_mismatch":
         return RAISE
     if op == "unpack_splat":
